@@ -430,6 +430,11 @@ func c17GenCase(r *Rng) (string, bool) {
 			off += jump // all tracks jump ahead together (encoder restart / outage)
 		}
 		n := base + rd + off
+		// timestamps do not always continue exactly: an occasional rewound (overlap) or advanced (gap) decode time
+		shift := 0
+		if rd > 0 && r.Intn(8) == 0 {
+			shift = r.Pick(-3, -1, 2, 5)
+		}
 		var round []ev
 		for ti, t := range tracks {
 			if ti == late && rd < lateFrom {
@@ -442,9 +447,13 @@ func c17GenCase(r *Rng) (string, bool) {
 			if r.Intn(15) == 0 {
 				d = dur - 1 // a different duration
 			}
-			round = append(round, ev{t, n, n * dur, d})
+			dts := n*dur + shift
+			if rd > 0 && r.Intn(25) == 0 {
+				dts += r.Pick(-2, -1, 1) // this track alone
+			}
+			round = append(round, ev{t, n, dts, d})
 			if r.Intn(20) == 0 {
-				round = append(round, ev{t, n, n * dur, d}) // duplicate upload
+				round = append(round, ev{t, n, dts, d}) // duplicate upload
 			}
 		}
 		// shuffle the round
